@@ -21,6 +21,8 @@ fn axle_scn<const N: usize>() {
     let ext: Vec<T> = (0..N).map(|_| Terminal::new()).collect();
     let mut ax = Axle::<N, E>::new();
     for i in 0..N { let _ = reads(ax.get_terminal(i)); }
+    // out-of-range indices: a bounds-check panic is the safe outcome (caught); a reference past the end is UB for Miri to see
+    for idx in [N, N + 1, usize::MAX] { let _ = catch(|| ax.get_terminal(idx).try_borrow().is_ok()); }
     for i in 0..N { connect(&ext[i], ax.get_terminal(i)); }
     for i in 0..N { if i % 2 == 0 { set_state(&ext[i], i as i64 + 1, st(i as f32 + 1.0)); } else { set_cmd(ax.get_terminal(i), i as i64 + 10, Command::Velocity(i as f32)); } }
     let _ = ax.update();
